@@ -552,6 +552,10 @@ func runStatsFiles(ctx *core.Ctx, c05 bool) {
 		return
 	}
 	nfiles := ctx.Scale(2800, 64000)
+	if !c05 {
+		// C06 searches every file per row group and once more through MultiRowGroup: fewer files in thorough
+		nfiles = ctx.Scale(2800, 24000)
+	}
 	workers := 8
 	var wg sync.WaitGroup
 	for w := 0; w < workers; w++ {
